@@ -7,6 +7,8 @@ git -C /repo worktree remove --force $wt >/dev/null 2>&1
 git -C /repo worktree add --detach $wt HEAD >/dev/null 2>&1 || { echo "$id worktree-failed"; exit 2; }
 if ! git -C $wt apply $src/patch.diff 2>/tmp/sv/$id.apply; then echo "$id patch-does-not-apply"; git -C /repo worktree remove --force $wt; exit 2; fi
 export OMP_NUM_THREADS=2 MKL_NUM_THREADS=2 MPLBACKEND=Agg
+export VERIF_EVIDENCE_DIR=/tmp/sv/evidence VERIF_REPLAY_DIR=/tmp/sv/replays   # never touch the committed evidence
+mkdir -p /tmp/sv/evidence /tmp/sv/replays
 LEASPY_SRC=/repo/src /venv/bin/python $src/demo.py > /tmp/sv/$id.demo0 2>&1; d0=$?
 LEASPY_SRC=$wt/src /venv/bin/python $src/demo.py > /tmp/sv/$id.demo1 2>&1; d1=$?
 if [ "$SKIP_PYTEST" != "1" ]; then
